@@ -88,6 +88,20 @@ def Db.nestingLinksB (sch : Schema) (db : Db) : Bool :=
       | some t => getInt sch.type t "_outer_class" == p.1
       | none => false
 
+/-- class ↔ sequence links agree: every sequence a class lists exists and its getters are
+methods of that class; no record is listed twice (by two classes or by one) and none is orphaned -/
+def Db.makeSeqLinksB (sch : Schema) (db : Db) : Bool :=
+  let listed := db.types.flatMap (fun p => getInts sch.type p.2 "_make_seqs")
+  (db.types.all fun p =>
+    (getInts sch.type p.2 "_make_seqs").all fun s =>
+      match db.makeSeqs.find s with
+      | some sq =>
+        (getInts sch.type p.2 "_methods").contains (getInt sch.makeSeq sq "_length_getter") &&
+        (getInts sch.type p.2 "_methods").contains (getInt sch.makeSeq sq "_element_getter")
+      | none => false) &&
+  listed.length == listed.eraseDups.length &&
+  db.makeSeqs.all (fun q => listed.contains q.1)
+
 /-- non-empty unique names are pairwise distinct -/
 def Db.uniqueNamesDistinctB (sch : Schema) (db : Db) : Bool :=
   let names := (db.wrappers.map fun p => getStr sch.wrapper p.2 "_unique_name").filter (fun n => !n.isEmpty)
